@@ -143,6 +143,7 @@ fn show_can(f: &BxFrame, o: &mut L) {
     let data: Vec<u64> = match f.data() { Some(d) => d.iter().map(|b| *b as u64).collect(), None => vec![] };
     o.extend_from_slice(&[ext, f.is_remote_frame() as u64, id, f.dlc() as u64, data.len() as u64]); o.extend(data);
 }
+pub fn show_can_pub(f: &BxFrame, o: &mut L) { show_can(f, o) }
 pub fn parse_can(l: &[u64]) -> BxFrame {
     let n = l[4] as usize;
     let data: Vec<u8> = l[5..5 + n].iter().map(|x| *x as u8).collect();
